@@ -42,6 +42,6 @@ SITES = [
          want={'encMore_g2', 'encMore_a4', 'encMore_a7', 'encMore_a8'}),
     # g0 `not line`, g1 `chunk_size == 0`
     Site('supervisor/http_client.py', 'HTTPHandler.chunked_size', 'decSize', '(buffer : List UInt8) (chunk_size : Int)',
-         {'self.buffer': ('buffer', 'bytes'), 'chunk_size': ('chunk_size', 'int')},
+         {'self.buffer': ('buffer', 'bytes'), 'int(line.split()[0], 16)': ('chunk_size', 'int')},
          want={'decSize_g0', 'decSize_g1'}),
 ]
